@@ -56,9 +56,9 @@ def stepAsker (toks : List String) (impl : String) : Res :=
   let recs : List (Nat × Fnn.Rec) := if recsS == "-" then [] else
     (recsS.splitOn ",").zipIdx.map fun (e, j) =>
       let p := e.splitOn ":"
-      -- idIdx:signed:dist:port:class:senderClass:relayGo
+      -- idIdx:signed:dist:port:class:senderClass:relayGo:onAllowList
       (j, ({ id := (p.getD 0 "").toNat!, signed := p.getD 1 "" == "1", relayOk := relayOk (p.getD 5 "") (p.getD 4 ""),
-             inNetrestrict := true, udp := (p.getD 3 "").toNat!, dist := (p.getD 2 "").toNat! } : Fnn.Rec))
+             inNetrestrict := p.getD 7 "1" == "1", udp := (p.getD 3 "").toNat!, dist := (p.getD 2 "").toNat! } : Fnn.Rec))
   -- the Lean rendering of CheckRelayIP by class must agree with the real function
   let relayMis := if recsS == "-" then false else (recsS.splitOn ",").any fun e =>
       let p := e.splitOn ":"
